@@ -83,6 +83,20 @@ CLAIMED = {
               'the api port over random histories (mixed flags, invalid and non-mapping documents, accepted and rejected per-call schemas).'),
         note=COMMON_NOTE + 'Error trees and the handler tree are functions of the error list (C11, C13) and are not stored in the state.',
         design='§6 C07'),
+    'C08': dict(
+        technique='Lean 4 proof (transparency of the cache protocol under an explicit no-confusion hypothesis, by induction over histories; kernel-checked negation witnesses) + warm-vs-cold history oracle + cache-key correspondence',
+        text=('On the Lean model of the validated-schemas cache (entries = key shape + structural key of the item + structural key of '
+              'types_mapping; hit skips validation, success adds the entry; clear empties): C08_transparent_partial — for every '
+              'history of submissions and clear_caches() in which no submission is confused with an earlier valid one, every outcome '
+              'equals the outcome with the cache cleared beforehand; C08_clear; C08_keys (what the key identifies / keeps apart, '
+              'incl. CPython integer hashing modulo 2^61-1). Partial, because the unconditional statement is false of the unchanged '
+              'code: C08_witness_type / _hash / _string / _context / _subclass are its kernel-checked negations, each reproduced on '
+              'the real code on every run and reported as KNOWN-FINDING F13a-e (not repaired: needs a redesign of the cache key). '
+              'Tie: hkey port (model key equality = mapping_hash equality on variant pairs) and the warm-vs-cold oracle over '
+              'histories across Validator and three subclasses through three entry points; any difference outside the five listed '
+              'scenarios (e.g. a subclass-only *type*) is a violation.'),
+        note=COMMON_NOTE + 'String hashing assumed collision free. The cache lookups nested inside one submission are modelled at the granularity of one lookup per item.',
+        design='§6 C08'),
     'C09': dict(
         technique='Lean 4 proof (count/threshold/children theorems on the *of handler for every child-validation function) + standalone-definition oracle + validate0 correspondence',
         text=('C09_count: the number the operators compare is the number of definitions whose individual validation (definition + '
